@@ -353,6 +353,8 @@ def check(prop_id, tier, seed):
         if c in known_hits:
             lines.append("KNOWN-FINDING: property=%s %s [%s; %d case(s) this run, e.g. %s]" % (
                 prop_id, desc, c, len(known_hits[c]), json.dumps(known_hits[c][0].get("input", known_hits[c][0].get("program", "")))[:200]))
+        else:
+            lines.append("KNOWN-FINDING: property=%s %s [%s; not hit by this run's inputs]" % (prop_id, desc, c))
     # broken obligations that are fully explained by known findings do not alarm
     explained = spec.get("known_explains", {})
     if new_failures:
